@@ -103,6 +103,7 @@ def engine_stream(chk, cases):
             merged_groups = sum(1 for k in got if len(want[k][1]) > 1)
             dist["records_merged_from_several_keys"] += merged_groups
             dist["runs_with_merging"] += merged_groups > 0
+            dist["records_with_a_line_less_key_merged_in"] += sum(1 for k in got if len(want[k][1]) > 1 and any(not cv["lines"] for _, _, cv in want[k][1]))
             if merged_groups:
                 chk.nontrivial(("eng", vi, [k for k, _ in c["keys"]], c["source_dir"], c["prefix_dir"], c["mapping"], c["files"], c["symlinks"]))
             # ---- correspondence with report_paths (Model/Rewrite.v)
@@ -160,9 +161,17 @@ def cli_spellings(rng, u, root, sd, pd, safe=False):
 
 
 def render_lcov(recs):
+    """tracefile text of [(SF name, cov)..]; FN before FNDA, BRDA with block 0 and consecutive branch numbers"""
     out = []
     for k, cov in recs:
         out.append("SF:" + k)
+        for n, start, _ in cov["funcs"]:
+            out.append("FN:%d,%s" % (start, bytes.fromhex(n).decode()))
+        for n, _, ex in cov["funcs"]:
+            out.append("FNDA:%d,%s" % (3 if ex else 0, bytes.fromhex(n).decode()))
+        for l, v in cov["branches"]:
+            for bi, t in enumerate(v):
+                out.append("BRDA:%d,0,%d,%s" % (l, bi, "2" if t else "-"))
         for l, n in cov["lines"]:
             out.append("DA:%d,%d" % (l, n))
         out.append("end_of_record")
@@ -170,17 +179,70 @@ def render_lcov(recs):
 
 
 def parse_lcov(txt):
+    """[[path, [[line, count]..]]..] (lines only; used by C11's CLI stream too)"""
+    return [[path, cov["lines"]] for path, cov in parse_lcov_full(txt)]
+
+
+def parse_lcov_full(txt):
+    """[[path, cov]..] with cov in the JSON form of the harness (names as hex)"""
     recs, cur = [], None
     for line in txt.split("\n"):
         if line.startswith("SF:"):
-            cur = [line[3:], []]
-        elif line.startswith("DA:") and cur is not None:
+            cur = [line[3:], {"lines": [], "branches": {}, "funcs": {}}]
+        elif cur is None:
+            continue
+        elif line.startswith("DA:"):
             l, n = line[3:].split(",")[:2]
-            cur[1].append([int(l), int(n)])
-        elif line == "end_of_record" and cur is not None:
-            recs.append(cur)
+            cur[1]["lines"].append([int(l), int(n)])
+        elif line.startswith("FN:"):
+            st, name = line[3:].split(",", 1)
+            cur[1]["funcs"].setdefault(name, [int(st), False])[0] = int(st)
+        elif line.startswith("FNDA:"):
+            c, name = line[5:].split(",", 1)
+            cur[1]["funcs"].setdefault(name, [0, False])[1] = int(c) > 0
+        elif line.startswith("BRDA:"):
+            l, _, bi, t = line[5:].split(",")
+            v = cur[1]["branches"].setdefault(int(l), {})
+            v[int(bi)] = t not in ("-", "0")
+        elif line == "end_of_record":
+            c = cur[1]
+            recs.append([cur[0], {"lines": c["lines"],
+                                  "branches": [[l, [v[k] for k in sorted(v)]] for l, v in sorted(c["branches"].items())],
+                                  "funcs": [[n.encode().hex(), st, ex] for n, (st, ex) in sorted(c["funcs"].items())]}])
             cur = None
     return recs
+
+
+def input_ids(cov):
+    """which inputs a record carries: by key line 1000+i, by function id<i>, by branch line 2000+i"""
+    ids = {l - 1000 for l, _ in cov["lines"] if 1000 <= l < 2000}
+    ids |= {l - 2000 for l, _ in cov["branches"] if 2000 <= l < 3000}
+    for n, _, _ in cov["funcs"]:
+        name = bytes.fromhex(n).decode(errors="replace")
+        if name.startswith("id") and name[2:].isdigit():
+            ids.add(int(name[2:]))
+    return ids
+
+
+def gen_record(rng, i, branch):
+    """coverage of input i: ~25% without any DA line (function-only, or branch-only under --branch)"""
+    fn = lambda name, ex: [name.encode().hex(), {"f": 3, "g": 7, "top-level": 1}.get(name, 20 + i), ex]
+    r = rng.random()
+    shared = [fn(n, rng.random() < 0.4) for n in ("f", "g", "top-level") if rng.random() < 0.3]
+    if r < 0.13 and branch:
+        kind = "branch-only"
+        cov = {"lines": [], "funcs": [], "branches": [[2000 + i, [rng.random() < 0.5 for _ in range(rng.randrange(1, 4))]]]}
+    elif r < 0.27:
+        kind = "function-only"
+        cov = {"lines": [], "funcs": sorted([fn("id%d" % i, rng.random() < 0.5)] + shared), "branches": []}
+    else:
+        kind = "lines"
+        lines = sorted(set(rng.sample([1, 2, 3, 4, 5, 6], rng.randrange(0, 4))))
+        cov = {"lines": [[l, rng.choice([0, 0, 1, 3])] for l in lines] + [[1000 + i, rng.choice([0, 0, 1])]],
+               "funcs": sorted(([fn("id%d" % i, rng.random() < 0.5)] if rng.random() < 0.7 else []) + shared), "branches": []}
+    if branch and kind != "function-only" and rng.random() < 0.5:
+        cov["branches"] = sorted(cov["branches"] + [[l, [rng.random() < 0.5 for _ in range(rng.randrange(1, 5))]] for l in (10, 11) if rng.random() < 0.6])
+    return kind, cov
 
 
 def covdir_walk(node, path, out):
@@ -193,6 +255,52 @@ def covdir_walk(node, path, out):
                 (sum(c["linesTotal"] for c in ch.values()), sum(c["linesCovered"] for c in ch.values()))))
     for name, c in ch.items():
         covdir_walk(c, path + [name], out)
+
+
+def check_report(chk, replay, rep, recs, intent, flt, dist, akeys):
+    """one lcov report against the property: every path once, its record = the C01 aggregate (lines, branches, functions)
+    of all inputs whose spelling denotes it, present iff the AGGREGATE has the status asked by --filter.  Returns
+    (ok, {path: cov})."""
+    by_path = collections.defaultdict(list)
+    for path, cov in rep:
+        by_path[path].append(cov)
+    ok = True
+    want = {}
+    for path in sorted(set(intent)):
+        ids = [i for i, p in enumerate(intent) if p == path]
+        agg = gen.ref_agg([recs[i][1] for i in ids])
+        if flt is None or covered(agg) == flt:
+            want[path] = (ids, agg)
+    for path, rs in by_path.items():
+        if len(rs) > 1:
+            chk.violation(dict(replay, path=path, clause="each distinct source file appears at most once in a report"), tag="cli")
+            ok = False
+    if not ok:
+        return False, {}
+    if set(by_path) != set(want):
+        chk.violation(dict(replay, reported=sorted(by_path), expected=sorted(want),
+                           clause="every source file is reported once under the path its spellings denote" if flt is None else
+                                  "--filter reports exactly the files whose aggregated record has the requested status (decided after merging the spellings)"), tag="cli")
+        return False, {}
+    for path, (ids, agg) in want.items():
+        cov = by_path[path][0]
+        got_ids = input_ids(cov)
+        if got_ids != set(ids):
+            chk.violation(dict(replay, path=path, merged_inputs=sorted(got_ids), expected_inputs=sorted(ids),
+                               clause="inputs that refer to the same file through different spellings are aggregated into a single record (none dropped: "
+                                      "line-less, function-only and branch-only inputs included)"), tag="cli")
+            ok = False
+            continue
+        why = gen.obs_matches(cov, agg)
+        if why:
+            chk.violation(dict(replay, path=path, got=cov, why=why, clause="the single record of a file is the C01 aggregate of its inputs (lines, branches, functions)"), tag="cli")
+            ok = False
+            continue
+        if flt is None:
+            dist["records_merged_from_several_spellings"] += len(ids) > 1
+            dist["records_merged_across_add_results_keys"] += len({akeys[i] for i in ids}) > 1
+            dist["records_with_a_line_less_input_merged_in"] += len(ids) > 1 and any(not recs[i][1]["lines"] for i in ids)
+    return ok, {p: v[0] for p, v in by_path.items()}
 
 
 def cli_stream(chk, n):
@@ -210,28 +318,28 @@ def cli_stream(chk, n):
                     f.write("x\n")
         os.makedirs(os.path.join(root, "src"), exist_ok=True)
         os.makedirs(os.path.join(root, "run"), exist_ok=True)
-        sd = None if (ci == 0 or rng.random() < 0.35) else os.path.join(root, "src")
+        sd = None if (ci == 0 or rng.random() < 0.4) else os.path.join(root, "src")
         pd = PREFIX if (ci != 0 and rng.random() < 0.5) else None
+        branch = ci != 0 and rng.random() < 0.5
+        with_filter = ci != 0 and rng.random() < 0.55
         recs, intent = [], []
         if ci == 0:
-            fam = [("foo/./bar.c", "foo/bar.c"), ("foo/bar.c", "foo/bar.c"), ("foo//bar.c", "foo/bar.c")]     # the witness of the finding
+            fam = [("foo/./bar.c", "foo/bar.c"), ("foo/bar.c", "foo/bar.c"), ("foo//bar.c", "foo/bar.c")]     # the witness of the former finding
         else:
             fam = []
-            safe = bool(sd) and rng.random() < 0.55
+            safe = bool(sd) and rng.random() < 0.45
             present = [u for u in ONDISK if os.path.exists(os.path.join(root, "src", u))]
             pool = present if (safe and present) else UNDER
             for u in rng.sample(pool, min(len(pool), rng.randrange(1, 4))):
                 fam += cli_spellings(rng, u, root, sd, pd, safe and bool(present))
             dist["safe_cases"] += safe and bool(present)
+        kinds = []
         for i, (k, p) in enumerate(fam):
-            lines = sorted(set(rng.sample([1, 2, 3, 4, 5, 6], rng.randrange(0, 4))))
-            cov = {"lines": [[l, rng.choice([0, 1, 3])] for l in lines] + [[1000 + i, rng.choice([0, 1])]], "branches": [], "funcs": []}
+            kind, cov = gen_record(rng, i, branch) if ci else ("lines", {"lines": [[1, i], [1000 + i, 1]], "funcs": [], "branches": []})
+            kinds.append(kind)
             recs.append((k, cov))
             intent.append(p)
-        info = os.path.join(root, "run", "in.info")
-        with open(info, "w") as f:
-            f.write(render_lcov(recs))
-        # the key under which add_results stores each record (the property's reading of "the same file on disk")
+        # the key under which add_results stores each record ("the same file on disk")
         def addkey(k):
             if sd:
                 p = os.path.join(sd, k)
@@ -239,82 +347,97 @@ def cli_stream(chk, n):
                     return os.path.realpath(p)
             return k
         akeys = [addkey(k) for k, _ in recs]
-        args = [exe, info] + (["-s", sd] if sd else []) + (["-p", pd] if pd else [])
+        if with_filter:
+            # make sure the status of a file differs from the status of some of its spellings: two inputs that stay distinct map
+            # keys until merge_same_paths, one without any executed line, one executed
+            pairs = [(a, b) for a in range(len(recs)) for b in range(len(recs)) if a != b and intent[a] == intent[b] and akeys[a] != akeys[b]]
+            if pairs:
+                a, b = rng.choice(pairs)
+                fnid = lambda i, ex: [("id%d" % i).encode().hex(), 20 + i, ex]
+                recs[a] = (recs[a][0], {"lines": [[2, 0], [1000 + a, 0]], "funcs": [fnid(a, False)], "branches": []})
+                recs[b] = (recs[b][0], {"lines": [[2, 4], [1000 + b, 1]], "funcs": [fnid(b, True)], "branches": []})
+                kinds[a] = kinds[b] = "lines"
+                dist["filter_cases_with_mixed_status_spellings"] += 1
+        info = os.path.join(root, "run", "in.info")
+        with open(info, "w") as f:
+            f.write(render_lcov(recs))
+        args = [exe, info] + (["-s", sd] if sd else []) + (["-p", pd] if pd else []) + (["--branch"] if branch else [])
         outs = {}
-        for t in ("lcov", "files", "covdir"):
-            p = vlib.sh(args + ["-t", t], cwd=os.path.join(root, "run"), timeout=120)
+        todo = [("lcov", None), ("files", None), ("covdir", None)] + ([("lcov", True), ("lcov", False)] if with_filter else [])
+        for t, flt in todo:
+            extra = [] if flt is None else ["--filter", "covered" if flt else "uncovered"]
+            p = vlib.sh(args + extra + ["-t", t], cwd=os.path.join(root, "run"), timeout=120)
             chk.count()
             if p.returncode != 0:
-                chk.violation({"kind": "oracle", "engine": "cli", "args": args[1:] + ["-t", t], "input": render_lcov(recs), "stderr": p.stderr[-800:],
+                chk.violation({"kind": "oracle", "engine": "cli", "args": args[1:] + extra + ["-t", t], "input": render_lcov(recs), "stderr": p.stderr[-800:],
                                "clause": "grcov must produce a report"}, tag="cli")
                 outs = None
                 break
-            outs[t] = p.stdout
+            outs[(t, flt)] = p.stdout
         if outs is None:
             continue
-        rep = parse_lcov(outs["lcov"])
-        files = [l for l in outs["files"].split("\n") if l]
-        replay = {"kind": "oracle", "engine": "cli", "args": args[1:], "input": render_lcov(recs), "lcov": outs["lcov"], "files": outs["files"]}
+        replay = {"kind": "oracle", "engine": "cli", "args": args[1:], "input": render_lcov(recs), "lcov": outs[("lcov", None)], "files": outs[("files", None)]}
+        rep = parse_lcov_full(outs[("lcov", None)])
+        files = [l for l in outs[("files", None)].split("\n") if l]
         if sorted(files) != sorted(r[0] for r in rep):
             chk.violation(dict(replay, clause="-t files and -t lcov list the same paths"), tag="cli")
             continue
-        by_path = collections.defaultdict(list)
-        for path, das in rep:
-            by_path[path].append(das)
-        bad = False
-        for path, rs in by_path.items():
-            if len(rs) > 1:
-                chk.violation(dict(replay, path=path, clause="each distinct source file appears at most once in a report"), tag="cli")
-                bad = True
-                continue
-            das = rs[0]
-            t = set(key_ids(das))
-            # the record aggregates exactly the inputs that denote this path (whatever their spelling), according to C01
-            exp_ids = {i for i, p in enumerate(intent) if p == path}
-            if not t or t != exp_ids:
-                chk.violation(dict(replay, path=path, merged_inputs=sorted(t), expected_inputs=sorted(exp_ids),
-                                   clause="inputs that refer to the same file through different spellings are aggregated into a single record"), tag="cli")
-                bad = True
-                continue
-            exp = gen.ref_agg([recs[i][1] for i in sorted(t)])["lines"]
-            if sorted(das) != exp:
-                chk.violation(dict(replay, path=path, got=sorted(das), expected=exp, clause="the single record of a file is the C01 aggregate of its inputs"), tag="cli")
-                bad = True
-            dist["records_merged_from_several_spellings"] += len(t) > 1
-            dist["records_merged_across_add_results_keys"] += len({akeys[i] for i in t}) > 1
-        if set(by_path) != {p for p in intent}:
-            chk.violation(dict(replay, clause="every input file is reported once under the path its spellings denote"), tag="cli")
-            bad = True
-        if ci == 0 and not bad:
+        good, by_path = check_report(chk, replay, rep, recs, intent, None, dist, akeys)
+        if ci == 0 and good:
             dist["former_witness_now_one_record"] = 1
+        for flt in ((True, False) if with_filter else ()):
+            r2 = dict(replay, args=args[1:] + ["--filter", "covered" if flt else "uncovered"], lcov=outs[("lcov", flt)])
+            g2, bp2 = check_report(chk, r2, parse_lcov_full(outs[("lcov", flt)]), recs, intent, flt, dist, akeys)
+            dist["filter_reports_checked"] += 1
+            dist["filter_reports_nonempty"] += bool(bp2)
         # per-directory and global totals count every file once
-        tree = json.loads(outs["covdir"])
-        nodes = []
-        covdir_walk(tree, [], nodes)
-        file_nodes = [x for x in nodes if x[1]]
-        chk.count()
-        per_file = {p: (len(d[0]), sum(1 for _, c in d[0] if c > 0)) for p, d in by_path.items()}
-        ok = len(file_nodes) == len(per_file)
-        for path, is_file, tot, covd, kids in nodes:
-            if is_file:
-                name = "/".join(path).replace("//", "/")
-                ok = ok and per_file.get(name, per_file.get("/" + name.lstrip("/"))) == (tot, covd)
-            else:
-                ok = ok and kids == (tot, covd)
-        if tree["linesTotal"] != sum(v[0] for v in per_file.values()) or tree["linesCovered"] != sum(v[1] for v in per_file.values()):
-            ok = False
-        if not ok and not bad:
-            chk.violation(dict(replay, covdir=outs["covdir"], clause="per-directory and global totals count every file once"), tag="cli")
-        dist["totals_checked"] += 1
-        dist["totals_checked_on_cases_with_several_spellings_of_a_file"] += any(len(key_ids(d[0])) > 1 for d in by_path.values())
+        if good:
+            tree = json.loads(outs[("covdir", None)])
+            nodes = []
+            covdir_walk(tree, [], nodes)
+            file_nodes = [x for x in nodes if x[1]]
+            chk.count()
+            per_file = {p: (len(c["lines"]), sum(1 for _, n in c["lines"] if n > 0)) for p, c in by_path.items()}
+            ok = len(file_nodes) == len(per_file)
+            for path, is_file, tot, covd, kids in nodes:
+                if is_file:
+                    name = "/".join(path).replace("//", "/")
+                    ok = ok and per_file.get(name, per_file.get("/" + name.lstrip("/"))) == (tot, covd)
+                else:
+                    ok = ok and kids == (tot, covd)
+            if tree["linesTotal"] != sum(v[0] for v in per_file.values()) or tree["linesCovered"] != sum(v[1] for v in per_file.values()):
+                ok = False
+            if not ok:
+                chk.violation(dict(replay, covdir=outs[("covdir", None)], clause="per-directory and global totals count every file once"), tag="cli")
+            dist["totals_checked"] += 1
+            dist["totals_checked_on_cases_with_several_spellings_of_a_file"] += any(len(input_ids(c)) > 1 for c in by_path.values())
         dist["cases"] += 1
         dist["with_source_dir"] += bool(sd)
         dist["with_prefix_dir"] += bool(pd)
+        dist["with_branch"] += branch
+        dist["with_filter_runs"] += with_filter
+        for k in kinds:
+            dist["inputs_" + k] += 1
         if len(fam) > 1:
-            chk.nontrivial(("cli", [k for k, _ in recs], bool(sd), bool(pd), sorted(os.listdir(os.path.join(root, "src")))))
+            chk.nontrivial(("cli", [k for k, _ in recs], kinds, bool(sd), bool(pd), branch, with_filter, sorted(os.listdir(os.path.join(root, "src")))))
         chk.sample({"keys": [k.replace(root, "{R}") for k, _ in recs], "args": [a.replace(root, "{R}") for a in args[2:]], "reported": sorted(files)}, limit=3)
         shutil.rmtree(root, ignore_errors=True)
     return dict(dist)
+
+
+def lineless_variants(rng, case):
+    """C11's generator gives every key a line; here every key also carries a function id<i>, and about a quarter of the keys
+    have no line at all (function-only or branch-only), so that merging a line-less record into an existing one is exercised"""
+    for i, kc in enumerate(case["keys"]):
+        cov = kc[1]
+        cov["funcs"] = sorted(cov["funcs"] + [[("id%d" % i).encode().hex(), 20 + i, rng.random() < 0.5]], key=lambda x: bytes.fromhex(x[0]))
+        r = rng.random()
+        if r < 0.1:
+            cov["lines"], cov["funcs"] = [], []
+            cov["branches"] = sorted(cov["branches"] + [[2000 + i, [rng.random() < 0.5 for _ in range(rng.randrange(1, 4))]]])
+        elif r < 0.27:
+            cov["lines"] = []
+    return case
 
 
 def run(chk):
@@ -325,15 +448,18 @@ def run(chk):
     for i in range(120 if quick else 1500):
         c = pathgen.make_case(chk.rng, i)
         c["variants"] = [c["variants"][0], c["variants"][chk.rng.choice([1, 2, 3, 4, 5, 6])], c["variants"][chk.rng.choice([3, 4])]]
-        cases.append(c)
+        cases.append(lineless_variants(chk.rng, c))
     d1 = engine_stream(chk, cases)
     chk.extra["distribution"] = {"engine": d1, "cli": d2}
     chk.cov["rule"] = ("(1) CLI: generated tracefiles in which 1-3 underlying files appear in up to 10 spellings each ('./', '//', '/./', backslash, absolute, "
-                       "absolute with './', absolute through '..', prefixed, prefixed with '//'), files present on disk or not, with and without -s / -p, reports "
-                       "-t lcov, files, covdir: every path is listed once, its record is the C01 aggregate of exactly the inputs whose spelling denotes it, "
-                       "and the covdir totals of every directory and of the whole report equal the sum over the files listed. (2) engine rewrite: "
-                       "merge_same_paths(rewrite_paths(.., None, ..), filter) as main.rs calls it, on C11's generated cases (trees, symlinks, mapping, prefix, "
-                       "ignore / keep-only / existence / filter variants): no duplicate path (as string and as component sequence), every record = the driver's "
+                       "absolute with './', absolute through '..', prefixed, prefixed with '//'), files present on disk or not, with and without -s / -p / --branch; "
+                       "every input is identifiable by a key line, a function id<i> or a branch line, about a quarter of the inputs carry no DA line at all "
+                       "(function-only, branch-only); reports -t lcov, files, covdir and, in about half of the cases, --filter covered and --filter uncovered "
+                       "(with two spellings of one file forced to differ in status whenever two of them stay distinct map keys): every path is listed once, its "
+                       "record is the C01 aggregate (lines, branches, functions) of exactly the inputs whose spelling denotes it, --filter lists exactly the files "
+                       "whose AGGREGATE has the status, each with the full aggregate, and the covdir totals of every directory and of the whole report equal the "
+                       "sum over the files listed. (2) engine rewrite: merge_same_paths(rewrite_paths(.., None, ..), filter) on C11's generated cases with a function "
+                       "id<i> per key and a quarter of the keys line-less: no duplicate path (as string and as component sequence), every record = the driver's "
                        "own aggregate of the retained records with that path with --filter decided on the aggregate, and agreement with the model report_paths. "
                        "non-trivial = a CLI case with at least two spellings, or an engine run in which at least one record was merged from several keys; distinct by content")
     chk.cov["trusted_base"] = ["Coq kernel; vm_compute", "grcov's lcov parser and lcov/covdir/files writers (C04, C03) on the CLI stream",
